@@ -32,10 +32,9 @@ def run(ctx):
                                 "Lean compiler for the driver", "extract/callgraph `callers` scan (go/types)"]
     ctx.lean_props()
     # static side condition: nobody under native/ calls NativeCall / CacheDB.Commit / CacheDB.Reset
-    out = ctx.run_extract("callgraph", ["json"], timeout=1800)
-    if out is not None:
-        import json
-        facts = json.loads(out)
+    from checks import native_extract
+    facts = native_extract.extract(ctx, "callgraph", ["functions"], "CallGraph.lean", write_lean=False)
+    if facts is not None:
         ctx.cov["nativecall_scan"] = {"callers_in_native_service": facts.get("callers") or [],
                                       "scanned_functions": facts.get("module_functions")}
         for site in facts.get("callers") or []:
